@@ -83,7 +83,14 @@ def build_impl(sc0, sid):
         pkgs.append({"path": "m/go-bar", "name": "bar", "files": [{"name": "go-bar/bar.go", "src": "\n".join(bar) + "\n"}]})
     if qual == "selfname":
         pkgs.append({"path": "m/e", "name": "e", "files": [{"name": "e/e.go", "src": "package e\n\ntype E struct{}\n"}]})
-    pkgs.append({"path": "m/u", "name": "u", "files": [{"name": "u/u.go", "src": "\n".join(u) + "\n"}]})
+    ufiles = [{"name": "u/u.go", "src": "\n".join(u) + "\n"}]
+    if sc.get("sib") == "binds":
+        # an earlier file of the package binds the qualifier's name to a package without I
+        qn = {"declared": "d", "alias": "x", "unbound": "nope"}[qual]
+        ufiles.insert(0, {"name": "u/a_first.go", "src": "package u\n\nimport %s \"m/e\"\n\nvar _ %s.E\n" % (qn, qn)})
+        if not any(pk["path"] == "m/e" for pk in pkgs):
+            pkgs.append({"path": "m/e", "name": "e", "files": [{"name": "e/e.go", "src": "package e\n\ntype E struct{}\n"}]})
+    pkgs.append({"path": "m/u", "name": "u", "files": ufiles})
     prog = {"id": sid, "pkgs": pkgs, "query": {"pkg": "m/u", "type": "T", "ptr": sc["cptr"], "iface_pkg": ipath, "iface": "I"}}
     expect = (sc0["code"], tuple(sorted(sc0["missing"])), line_of_T)
     return prog, expect
